@@ -77,7 +77,7 @@ def compare(cases, out_res, ref_res):
     return diffs
 
 
-def run_batch(name, progs, rng, tapes=3, histlen=10, budget=120, want_tmp=False, per_file=6, gover="1.21"):
+def run_batch(name, progs, rng, tapes=3, histlen=10, budget=120, want_tmp=False, per_file=6, gover="1.21", oc=False):
     """Compile and run programs (two rounds: files that fail are re-run one function per file).
     Returns dict(status={prog: 'ok'|reason}, cases=[...], out=[...], ref=[...], tmp=[...]|None)."""
     status, cases_all, out_all, ref_all = {}, [], [], []
@@ -88,7 +88,15 @@ def run_batch(name, progs, rng, tapes=3, histlen=10, budget=120, want_tmp=False,
         b = make_batch("%s_r%d" % (name, rnd), todo, per_file=(per_file if rnd == 0 else 1),
                        files_per_pkg=(8 if rnd == 0 else 40), gover=gover)
         try:
+            if oc and rnd == 0:
+                import optcorpus
+                b.extra_src[("oc", "oc.go")] = optcorpus.render("co")
             b.write()
+            if oc and rnd == 0:
+                import os
+                os.makedirs(os.path.join(b.work, "ref", "oc"), exist_ok=True)
+                open(os.path.join(b.work, "ref", "oc", "oc.go"), "w").write(optcorpus.render("ref"))
+                b.pkgs["oc"] = {"oc": [(nm, None) for nm in optcorpus.GENS]}
             b.compile()
             b.build_out()
             xo = b.write_runner("runout", "out", True)
@@ -106,6 +114,13 @@ def run_batch(name, progs, rng, tapes=3, histlen=10, budget=120, want_tmp=False,
                     good.append(p)
                     status[p["name"]] = "ok"
             cases = make_cases(rng, good, tapes=tapes, histlen=histlen, budget=budget)
+            if oc and rnd == 0:
+                for nm in optcorpus.GENS:
+                    if "oc.%s" % nm in b.status:
+                        status["oc." + nm] = b.status["oc.%s" % nm]
+                        continue
+                    for tape in ([1] * 30, [1, 1, 0, 1, 0], [0]):
+                        cases.append({"g": "oc." + nm, "tape": tape, "budget": budget, "hist": ["mn", "cur"] * 8, "prog": "oc." + nm})
             if cases:
                 out_all += b.run(xo, cases)
                 ref_all += b.run(xr, cases)
